@@ -172,7 +172,7 @@ def run(ctx, rep):
         elif f in nm.containers:
             vals = [({"k": "v"}, {"k": "v"}, False), ({"k": "v"}, {"k": "v", "j": "w"}, True), ({}, {"k": "v"}, True)]
         else:
-            vals = [("a", "a", False), ("a", "b", True), (None, "a", True), (None, None, False)]
+            vals = [("a", "a", False), ("a", "b", True), (None, "a", True), (None, None, False), (None, "", True), ("", None, True), ("", "", False)]
         prop = nm.field_prop.get(f, f)
         for (v1, v2, want) in vals:
             env = {p1: {"__obj__": True, f: v1, prop: v1}, p2: {"__obj__": True, f: v2, prop: v2}}
